@@ -555,3 +555,5 @@ func replayFile(path string) int {
 	fmt.Printf("VIOLATION property=%s replay=%s\n  fingerprint: %s\n  %s\n", r.Property, path, fl.FP, fl.Detail)
 	return 1
 }
+
+func sortStrings(s []string) { sort.Strings(s) }
